@@ -162,8 +162,14 @@ func run(cmds []cmd, wrapper int) {
 func VerifC05ReplayTry()     { run(draw(rt.Param("n")), wTry) }
 func VerifC05ReplayTryPipe() { run(draw(rt.Param("n")), wTryPipe) }
 
-// VerifC05E2E: every operator pattern and symbolic exit numbers under each of the four wrappers.
+// VerifC05E2E: every operator pattern and symbolic exit numbers under `try { }` and `trypipe { }`.
 func VerifC05E2E() {
 	cmds := draw(rt.Param("n"))
-	run(cmds, rt.Choice("wrapper", nWrappers))
+	run(cmds, wTry+rt.Choice("wrapper", 2))
+}
+
+// VerifC05Runmode: the same under `runmode try function` and `runmode trypipe function`.
+func VerifC05Runmode() {
+	cmds := draw(rt.Param("n"))
+	run(cmds, wRunmodeTry+rt.Choice("wrapper", 2))
 }
